@@ -550,6 +550,50 @@ fn run_shared<'a, A: BumpAllocatorTypedScope<'a> + Copy>(st: &mut St, a: A, firs
             }
             continue;
         }
+        if sel == 3 {
+            // split_at_spare: the initialised part and the spare capacity as two owned slices
+            if let Cur::F(f) = cur {
+                let (len, cap, ptr) = (f.len(), f.capacity(), f.as_ptr() as usize);
+                st.note(|| format!("FixedBumpVec<u8> len {len} cap {cap}: split_at_spare, refill the spare part"));
+                st.ops += 1;
+                let (init, spare) = f.split_at_spare();
+                if init[..] != m[..] || spare.len() != cap - len || (spare.len() > 0 && spare.as_ptr() as usize != ptr + len) {
+                    st.fail("C16/partition", format!("split_at_spare of len {len} cap {cap} at {ptr:#x}: initialised part {:?} at {:#x}, spare part of {} at {:#x}", &init[..], init.as_ptr() as usize, spare.len(), spare.as_ptr() as usize));
+                    return;
+                }
+                // the spare part is an independent owner: filling it does not disturb the other part
+                let mut second = FixedBumpVec::from_uninit(spare);
+                let fill = bytes(&r, second.capacity().min(1 + r.b(2) as usize % 30));
+                if second.try_extend_from_slice_copy(&fill).is_err() || second[..] != fill[..] {
+                    st.fail("C16/partition", format!("the spare part (capacity {}) did not take {} bytes", second.capacity(), fill.len()));
+                }
+                if init[..] != m[..] {
+                    st.fail("C16/sibling-changed", format!("filling the spare part changed the initialised part {m:?} -> {:?}", &init[..]));
+                }
+                st.class("split_at_spare");
+                drop(second);
+                cur = Cur::F(FixedBumpVec::from_init(init));
+            }
+            continue;
+        }
+        if sel == 4 {
+            if let Cur::V(v) = &mut cur {
+                let (len, cap) = (v.len(), v.capacity());
+                st.ops += 1;
+                let (init, spare) = v.split_at_spare_mut();
+                if init[..] != m[..] || spare.len() != cap - len {
+                    st.fail("C16/partition", format!("BumpVec::split_at_spare_mut of len {len} cap {cap}: parts of {} and {}", init.len(), spare.len()));
+                    return;
+                }
+                for s in spare.iter_mut() {
+                    s.write(0x99);
+                }
+                if v[..] != m[..] || v.capacity() != cap {
+                    st.fail("C16/sibling-changed", format!("writing the spare capacity changed the vector {m:?} -> {:?}", &v[..]));
+                }
+            }
+            continue;
+        }
         let op = decode(&r, m.len());
         let (nm, m0) = (cur.name(), m.clone());
         let cap0 = cur.cap();
@@ -638,6 +682,20 @@ fn run_mut<'a, A: MutBumpAllocatorCoreScope<'a> + bump_scope::traits::MutBumpAll
                     judge(st, &what, &op, real, &mut m, &after, cap0, cap1, false, rev);
                     if st.stop {
                         return;
+                    }
+                }
+                {
+                    let (len, cap) = (v.len(), v.capacity());
+                    let (init, spare) = v.split_at_spare_mut();
+                    if init[..] != m[..] || spare.len() != cap - len {
+                        st.fail("C16/partition", format!("{what}: split_at_spare_mut of len {len} cap {cap}: parts of {} and {}", init.len(), spare.len()));
+                        return;
+                    }
+                    for s in spare.iter_mut() {
+                        s.write(0x99);
+                    }
+                    if v[..] != m[..] {
+                        st.fail("C16/sibling-changed", format!("{what}: writing the spare capacity changed the vector {m:?} -> {:?}", &v[..]));
                     }
                 }
                 // finalise: the slice equals the model
